@@ -15,6 +15,9 @@ import CompmechVerif.Spec.Kinematics
 import CompmechVerif.Core.OpSpecTactics
 import CompmechVerif.Core.OpSpecLemmas
 import CompmechVerif.Spec.WholeMatrix
+import CompmechVerif.Spec.WholeMatrixPSD
+import CompmechVerif.Spec.PSDExample
+import Mathlib.Tactic.Positivity
 import Mathlib.Tactic.FinCases
 import Mathlib.Data.Fintype.Basic
 
@@ -168,5 +171,159 @@ theorem kMy1y2_matrix_kpanel (base : PCtx K) (I : Nat → Integrals K) (hI : ∀
     hi hk hj hl]
   refine congrArg List.sum (List.map_congr_left fun sec _ => ?_)
   exact kMy1y2_entry_kpanel_partial (ctxAt (sectionBase base s sec) (I sec) i k j l) ha (hb sec) α β
+
+
+/-! ### positive semi-definiteness of the whole mass matrix (over ℝ)
+
+The weight of the kinetic energy is positive semi-definite for `mu, h ≥ 0`, wherever the mid-plane sits:
+`eᵀ massW e = mu h [(e₀ − δ e₃)² + (e₁ − δ e₄)² + e₂² + (h²/12)(e₃² + e₄²)]`.
+`RealIntegrals I dx dy X Y x₁ x₂ y₁ y₂`: the one-dimensional integrals ARE integrals of products of continuous functions
+(`I .x dx d₁ f₁ i d₂ f₂ k = ∫_{x₁}^{x₂} X d₁ f₁ i · X d₂ f₂ k`, same along y; `x₁ ≤ x₂`, `y₁ ≤ y₂`).  Then for ANY series orders
+`m, n`, ANY placement `row0`, ANY amplitude vector `v` over the panel's `3·m·n` degrees of freedom, `vᵀ M v ≥ 0` for the
+finalized mass matrix (`vᵀ M v` = twice the kinetic energy of the velocity field `v`; Core/OpSpecPSD.lean `hessian_psd`). -/
+
+open scoped BigOperators
+
+/-- the through-thickness mass moments form a positive semi-definite weight (sum of squares plus `h²/12` terms) -/
+theorem massW_psd (P : PCtx ℝ) (δ : ℝ) (hmu : 0 ≤ P.mu) (hh : 0 ≤ P.h) : WeightPSD (massW P δ) := by
+  intro e
+  have key : ∑ p, ∑ q, massW P δ p q * e p * e q
+      = P.mu * P.h * ((e 0 - δ * e 3) ^ 2 + (e 1 - δ * e 4) ^ 2 + e 2 ^ 2 + P.h * P.h / 12 * (e 3 ^ 2 + e 4 ^ 2)) := by
+    simp only [Fin.sum_univ_five, massW]
+    ring
+  rw [key]
+  positivity
+
+open Compmech.Asm in
+/-- flat plate: the mass matrix is positive semi-definite -/
+theorem kM_matrix_psd_plate (base : PCtx ℝ) (I : Integrals ℝ) (hI : I.Comm) (ha : base.a ≠ 0) (hb : base.b ≠ 0)
+    (hmu : 0 ≤ base.mu) (hh : 0 ≤ base.h) (hab : 0 ≤ base.a * base.b)
+    (X Y : Nat → Fld → Nat → ℝ → ℝ) (x₁ x₂ y₁ y₂ : ℝ) (hR : RealIntegrals I .full .full X Y x₁ x₂ y₁ y₂)
+    (m n row0 : Nat) (v : Nat → ℝ) :
+    0 ≤ ∑ r ∈ Finset.range (3 * m * n), ∑ c ∈ Finset.range (3 * m * n),
+      v (row0 + r) * toFun (panelCoo 3 m n row0 Plate.fkM.entry base I) (row0 + r) (row0 + c) * v (row0 + c) :=
+  matrix_psd_of_hessian _ m n row0 fld3 base I .full .full (velOps base) (massW base (-base.d))
+    (fun hi hk hj hl α β => kM_matrix_plate base I hI ha hb m n row0 hi hk hj hl α β) X Y x₁ x₂ y₁ y₂ hR
+    (massW_psd base (-base.d) hmu hh) hab v
+
+open Compmech.Asm in
+theorem kMy1y2_matrix_psd_plate (base : PCtx ℝ) (I : Integrals ℝ) (hI : I.Comm) (ha : base.a ≠ 0) (hb : base.b ≠ 0)
+    (hmu : 0 ≤ base.mu) (hh : 0 ≤ base.h) (hab : 0 ≤ base.a * base.b)
+    (X Y : Nat → Fld → Nat → ℝ → ℝ) (x₁ x₂ y₁ y₂ : ℝ) (hR : RealIntegrals I .full .sub X Y x₁ x₂ y₁ y₂)
+    (m n row0 : Nat) (v : Nat → ℝ) :
+    0 ≤ ∑ r ∈ Finset.range (3 * m * n), ∑ c ∈ Finset.range (3 * m * n),
+      v (row0 + r) * toFun (panelCooYX 3 m n row0 Plate.fkMy1y2.entry base I) (row0 + r) (row0 + c) * v (row0 + c) :=
+  matrix_psd_of_hessian _ m n row0 fld3 base I .full .sub (velOps base) (massW base (-base.d))
+    (fun hi hk hj hl α β => kMy1y2_matrix_plate base I hI ha hb m n row0 hi hk hj hl α β) X Y x₁ x₂ y₁ y₂ hR
+    (massW_psd base (-base.d) hmu hh) hab v
+
+open Compmech.Asm in
+/-- cylindrical panel -/
+theorem kM_matrix_psd_cpanel (base : PCtx ℝ) (I : Integrals ℝ) (hI : I.Comm) (ha : base.a ≠ 0) (hb : base.b ≠ 0)
+    (hmu : 0 ≤ base.mu) (hh : 0 ≤ base.h) (hab : 0 ≤ base.a * base.b)
+    (X Y : Nat → Fld → Nat → ℝ → ℝ) (x₁ x₂ y₁ y₂ : ℝ) (hR : RealIntegrals I .full .full X Y x₁ x₂ y₁ y₂)
+    (m n row0 : Nat) (v : Nat → ℝ) :
+    0 ≤ ∑ r ∈ Finset.range (3 * m * n), ∑ c ∈ Finset.range (3 * m * n),
+      v (row0 + r) * toFun (panelCoo 3 m n row0 CPanel.fkM.entry base I) (row0 + r) (row0 + c) * v (row0 + c) :=
+  matrix_psd_of_hessian _ m n row0 fld3 base I .full .full (velOps base) (massW base (-base.d))
+    (fun hi hk hj hl α β => kM_matrix_cpanel base I hI ha hb m n row0 hi hk hj hl α β) X Y x₁ x₂ y₁ y₂ hR
+    (massW_psd base (-base.d) hmu hh) hab v
+
+open Compmech.Asm in
+theorem kMy1y2_matrix_psd_cpanel (base : PCtx ℝ) (I : Integrals ℝ) (hI : I.Comm) (ha : base.a ≠ 0) (hb : base.b ≠ 0)
+    (hmu : 0 ≤ base.mu) (hh : 0 ≤ base.h) (hab : 0 ≤ base.a * base.b)
+    (X Y : Nat → Fld → Nat → ℝ → ℝ) (x₁ x₂ y₁ y₂ : ℝ) (hR : RealIntegrals I .full .sub X Y x₁ x₂ y₁ y₂)
+    (m n row0 : Nat) (v : Nat → ℝ) :
+    0 ≤ ∑ r ∈ Finset.range (3 * m * n), ∑ c ∈ Finset.range (3 * m * n),
+      v (row0 + r) * toFun (panelCooYX 3 m n row0 CPanel.fkMy1y2.entry base I) (row0 + r) (row0 + c) * v (row0 + c) :=
+  matrix_psd_of_hessian _ m n row0 fld3 base I .full .sub (velOps base) (massW base (-base.d))
+    (fun hi hk hj hl α β => kMy1y2_matrix_cpanel base I hI ha hb m n row0 hi hk hj hl α β) X Y x₁ x₂ y₁ y₂ hR
+    (massW_psd base (-base.d) hmu hh) hab v
+
+open Compmech.Asm in
+/-- conical panel: finite sum over the constant-radius sections of positive semi-definite forms -/
+theorem kM_matrix_psd_kpanel (base : PCtx ℝ) (I : Nat → Integrals ℝ) (hI : ∀ sec, (I sec).Comm) (s : Nat)
+    (ha : base.a ≠ 0) (hb : ∀ sec, (sectionBase base s sec).b ≠ 0)
+    (hmu : 0 ≤ base.mu) (hh : 0 ≤ base.h) (hab : ∀ sec, sec < s → 0 ≤ base.a * (sectionBase base s sec).b)
+    (X Y : Nat → Nat → Fld → Nat → ℝ → ℝ) (x₁ x₂ y₁ y₂ : Nat → ℝ)
+    (hR : ∀ sec, sec < s → RealIntegrals (I sec) .sub .full (X sec) (Y sec) (x₁ sec) (x₂ sec) (y₁ sec) (y₂ sec))
+    (m n row0 : Nat) (v : Nat → ℝ) :
+    0 ≤ ∑ r ∈ Finset.range (3 * m * n), ∑ c ∈ Finset.range (3 * m * n),
+      v (row0 + r) * toFun (conePanelCoo s 3 m n row0 KPanel.fkM.entry base I) (row0 + r) (row0 + c) * v (row0 + c) :=
+  matrix_psd_of_hessian_sections _ s m n row0 fld3 (sectionBase base s) I .sub .full
+    (fun sec => velOps (sectionBase base s sec)) (fun sec => massW (sectionBase base s sec) (-base.d))
+    (fun hi hk hj hl α β => kM_matrix_kpanel base I hI s ha hb m n row0 hi hk hj hl α β)
+    X Y x₁ x₂ y₁ y₂ hR (fun sec _ => massW_psd (sectionBase base s sec) (-base.d) hmu hh) hab v
+
+open Compmech.Asm in
+theorem kMy1y2_matrix_psd_kpanel (base : PCtx ℝ) (I : Nat → Integrals ℝ) (hI : ∀ sec, (I sec).Comm) (s : Nat)
+    (ha : base.a ≠ 0) (hb : ∀ sec, (sectionBase base s sec).b ≠ 0)
+    (hmu : 0 ≤ base.mu) (hh : 0 ≤ base.h) (hab : ∀ sec, sec < s → 0 ≤ base.a * (sectionBase base s sec).b)
+    (X Y : Nat → Nat → Fld → Nat → ℝ → ℝ) (x₁ x₂ y₁ y₂ : Nat → ℝ)
+    (hR : ∀ sec, sec < s → RealIntegrals (I sec) .sub .sub (X sec) (Y sec) (x₁ sec) (x₂ sec) (y₁ sec) (y₂ sec))
+    (m n row0 : Nat) (v : Nat → ℝ) :
+    0 ≤ ∑ r ∈ Finset.range (3 * m * n), ∑ c ∈ Finset.range (3 * m * n),
+      v (row0 + r) * toFun (conePanelCoo s 3 m n row0 KPanel.fkMy1y2.entry base I) (row0 + r) (row0 + c) * v (row0 + c) :=
+  matrix_psd_of_hessian_sections _ s m n row0 fld3 (sectionBase base s) I .sub .sub
+    (fun sec => velOps (sectionBase base s sec)) (fun sec => massW (sectionBase base s sec) (-base.d))
+    (fun hi hk hj hl α β => kMy1y2_matrix_kpanel base I hI s ha hb m n row0 hi hk hj hl α β)
+    X Y x₁ x₂ y₁ y₂ hR (fun sec _ => massW_psd (sectionBase base s sec) (-base.d) hmu hh) hab v
+
+/-! Non-vacuity: the instance of Spec/PSDExample.lean (`a = b = 2`, `r = 1`, `sin α = −1/2`, identity laminate matrix,
+`mu = h = 1`, `d = 1/10`; the integrals of products of the monomials `t^(i+d)` over `[−1, 1]`) meets all hypotheses of every
+theorem of this section, for all `m, n, row0, v` (and any number of sections). -/
+
+open PSDExample in
+example : WeightPSD (massW unitBase (-unitBase.d)) := massW_psd unitBase _ (by norm_num [unitBase]) (by norm_num [unitBase])
+
+open Compmech.Asm PSDExample in
+example (m n row0 : Nat) (v : Nat → ℝ) :
+    0 ≤ ∑ r ∈ Finset.range (3 * m * n), ∑ c ∈ Finset.range (3 * m * n),
+      v (row0 + r) * toFun (panelCoo 3 m n row0 Plate.fkM.entry unitBase monoI) (row0 + r) (row0 + c) * v (row0 + c) :=
+  kM_matrix_psd_plate unitBase monoI monoI_comm (by norm_num [unitBase]) (by norm_num [unitBase]) (by norm_num [unitBase]) (by norm_num [unitBase])
+    (by norm_num [unitBase]) mono mono (-1) 1 (-1) 1 (monoI_real _ _) m n row0 v
+
+open Compmech.Asm PSDExample in
+example (m n row0 : Nat) (v : Nat → ℝ) :
+    0 ≤ ∑ r ∈ Finset.range (3 * m * n), ∑ c ∈ Finset.range (3 * m * n),
+      v (row0 + r) * toFun (panelCooYX 3 m n row0 Plate.fkMy1y2.entry unitBase monoI) (row0 + r) (row0 + c) * v (row0 + c) :=
+  kMy1y2_matrix_psd_plate unitBase monoI monoI_comm (by norm_num [unitBase]) (by norm_num [unitBase]) (by norm_num [unitBase]) (by norm_num [unitBase])
+    (by norm_num [unitBase]) mono mono (-1) 1 (-1) 1 (monoI_real _ _) m n row0 v
+
+open Compmech.Asm PSDExample in
+example (m n row0 : Nat) (v : Nat → ℝ) :
+    0 ≤ ∑ r ∈ Finset.range (3 * m * n), ∑ c ∈ Finset.range (3 * m * n),
+      v (row0 + r) * toFun (panelCoo 3 m n row0 CPanel.fkM.entry unitBase monoI) (row0 + r) (row0 + c) * v (row0 + c) :=
+  kM_matrix_psd_cpanel unitBase monoI monoI_comm (by norm_num [unitBase]) (by norm_num [unitBase]) (by norm_num [unitBase]) (by norm_num [unitBase])
+    (by norm_num [unitBase]) mono mono (-1) 1 (-1) 1 (monoI_real _ _) m n row0 v
+
+open Compmech.Asm PSDExample in
+example (m n row0 : Nat) (v : Nat → ℝ) :
+    0 ≤ ∑ r ∈ Finset.range (3 * m * n), ∑ c ∈ Finset.range (3 * m * n),
+      v (row0 + r) * toFun (panelCooYX 3 m n row0 CPanel.fkMy1y2.entry unitBase monoI) (row0 + r) (row0 + c) * v (row0 + c) :=
+  kMy1y2_matrix_psd_cpanel unitBase monoI monoI_comm (by norm_num [unitBase]) (by norm_num [unitBase]) (by norm_num [unitBase]) (by norm_num [unitBase])
+    (by norm_num [unitBase]) mono mono (-1) 1 (-1) 1 (monoI_real _ _) m n row0 v
+
+open Compmech.Asm PSDExample in
+example (s m n row0 : Nat) (v : Nat → ℝ) :
+    0 ≤ ∑ r ∈ Finset.range (3 * m * n), ∑ c ∈ Finset.range (3 * m * n),
+      v (row0 + r) * toFun (conePanelCoo s 3 m n row0 KPanel.fkM.entry unitBase fun _ => monoI) (row0 + r) (row0 + c)
+        * v (row0 + c) :=
+  kM_matrix_psd_kpanel unitBase (fun _ => monoI) (fun _ => monoI_comm) s (by norm_num [unitBase])
+    (fun sec => (section_b_pos s sec).ne') (by norm_num [unitBase]) (by norm_num [unitBase])
+    (fun sec _ => mul_nonneg (by norm_num [unitBase]) (section_b_pos s sec).le)
+    (fun _ => mono) (fun _ => mono) (fun _ => -1) (fun _ => 1) (fun _ => -1) (fun _ => 1) (fun _ _ => monoI_real _ _)
+    m n row0 v
+
+open Compmech.Asm PSDExample in
+example (s m n row0 : Nat) (v : Nat → ℝ) :
+    0 ≤ ∑ r ∈ Finset.range (3 * m * n), ∑ c ∈ Finset.range (3 * m * n),
+      v (row0 + r) * toFun (conePanelCoo s 3 m n row0 KPanel.fkMy1y2.entry unitBase fun _ => monoI) (row0 + r) (row0 + c)
+        * v (row0 + c) :=
+  kMy1y2_matrix_psd_kpanel unitBase (fun _ => monoI) (fun _ => monoI_comm) s (by norm_num [unitBase])
+    (fun sec => (section_b_pos s sec).ne') (by norm_num [unitBase]) (by norm_num [unitBase])
+    (fun sec _ => mul_nonneg (by norm_num [unitBase]) (section_b_pos s sec).le)
+    (fun _ => mono) (fun _ => mono) (fun _ => -1) (fun _ => 1) (fun _ => -1) (fun _ => 1) (fun _ _ => monoI_real _ _)
+    m n row0 v
 
 end Compmech.Panel.C04
